@@ -489,6 +489,30 @@ func runLifeOnce(c lifeCase) harness.Result {
 				return fail("step %d: request %x: received %x (%v), want %x", si, req, got, err, want)
 			}
 			cl.sure = true
+		case "burst":
+			// 25 pipelined requests written at once (300 bytes: what one read of the server's connection loop can take), all replies
+			// collected, then silence for longer than the server's read timeout
+			cl := clients[st.Client]
+			if cl == nil || !cl.accepted || cl.closedByUs || cl.inflight != nil {
+				continue
+			}
+			var burst, wants []byte
+			for i := 0; i < 25; i++ {
+				req := spec.EncodeRequest(spec.TCP, spec.Req{FC: 3, Unit: 0, Tx: uint16(1000*si + i), Addr: uint16(7 * i), Qty: 2})
+				burst = append(burst, req...)
+				wants = append(wants, device.New(c.Seed).Answer(spec.TCP, req)...)
+			}
+			_ = cl.conn.SetWriteDeadline(time.Now().Add(3 * time.Second))
+			if _, err := cl.conn.Write(burst); err != nil {
+				return fail("step %d: write failed: %v", si, err)
+			}
+			got, err := readFull(cl.conn, len(wants), 5*time.Second)
+			if err != nil || !bytes.Equal(got, wants) {
+				return fail("step %d: 25 pipelined requests: received %x (%v), want %x", si, got, err, wants)
+			}
+			cl.sure = true
+			time.Sleep(35 * time.Millisecond)
+			labels = append(labels, "burst-of-300-bytes")
 		case "panic-request":
 			// the handler panics while serving this request. The process must survive (a crash is reported through the journal);
 			// whether the server then closes the connection or answers is not prescribed - if it closes it, the usual accounting applies
@@ -735,7 +759,7 @@ func genLife(t *rapid.T) lifeCase {
 	n := rapid.IntRange(3, 18).Draw(t, "nsteps")
 	connected := 0
 	for i := 0; i < n; i++ {
-		op := rapid.SampledFrom([]string{"connect", "connect", "request", "request", "idle", "disconnect", "addr", "connect", "request", "panic-request"}).Draw(t, "op")
+		op := rapid.SampledFrom([]string{"connect", "connect", "request", "request", "idle", "disconnect", "addr", "connect", "request", "panic-request", "burst"}).Draw(t, "op")
 		st := step{Op: op}
 		switch op {
 		case "connect":
@@ -750,7 +774,7 @@ func genLife(t *rapid.T) lifeCase {
 			}
 		case "idle":
 			st.IdleMs = rapid.IntRange(0, 15).Draw(t, "idle")
-		case "disconnect", "panic-request":
+		case "disconnect", "panic-request", "burst":
 			st.Client = rapid.IntRange(0, k-1).Draw(t, "client")
 		}
 		c.Steps = append(c.Steps, st)
